@@ -79,6 +79,7 @@ class TU:
     def __init__(self):
         self.records, self.typedefs, self.fns, self.enums, self.text = {}, {}, {}, {}, b''
         self.tables = {}
+        self.field_order = {}
 
     def const_table(self, d):
         """(values, element type) of a `const` array whose initialiser is a list of integer constant expressions, else None"""
@@ -197,6 +198,8 @@ class Fn:
         self.tu, self.decl, self.fuel = tu, decl, fuel
         self.externs, self.nsite, self.extra_params, self.extra_outs = set(externs), {}, [], []
         self.tables = {}
+        self.tags, self.allfields, self.local_records = {}, {}, {}
+        self.trace = []
         self.lets, self.n = [], 0
         self.uses_mem = False
         self.done_fns = done or {}       # name -> signature info of already translated functions
@@ -268,6 +271,29 @@ class Fn:
             return ('mem', addr, self.tu.vtype(n), bt)
         raise Unsupported('lvalue ' + k)
 
+    def tag_of(self, n, env):
+        """an array object used as a pointer (an array member of a structure parameter, a constant table, a string literal is NOT
+        accepted): it has no numeric address in this translation, only an identity - a *tag* `<kind>*0x1000 + index` that the
+        generated file names (`tag_<param>_<member>`, `tag_<table>`).  Tags may be passed to external functions and compared for
+        equality with each other; arithmetic on them, loads and stores through them are outside the subset."""
+        k = n.get('kind')
+        if k == 'MemberExpr' and n.get('isArrow'):
+            base = strip(n['inner'][0])
+            if base.get('kind') == 'DeclRefExpr' and base['referencedDecl']['name'] in self.allfields:
+                pn = base['referencedDecl']['name']
+                names = self.allfields[pn]
+                if n['name'] in names:
+                    v = 0x1000 + names.index(n['name'])
+                    self.tags[f'tag_{pn}_{n["name"]}'] = v
+                    return lit(v, PTR)
+        if k == 'DeclRefExpr':
+            nm = n['referencedDecl']['name']
+            if nm in self.tu.tables or nm in self.tables:
+                v = 0x3000 + sorted(set(self.tu.tables) | set(self.tables)).index(nm)
+                self.tags[f'tag_{nm}'] = v
+                return lit(v, PTR)
+        raise Unsupported('array object used as a pointer: ' + str(k))
+
     def load(self, env, addr, t):
         self.uses_mem = True
         m = env['$mem']
@@ -331,6 +357,8 @@ class Fn:
         if k in ('ImplicitCastExpr', 'CStyleCastExpr'):
             ck = n.get('castKind')
             inner = n['inner'][0]
+            if ck == 'ArrayToPointerDecay':
+                return self.tag_of(strip(inner), env)
             if ck in ('LValueToRValue',):
                 return self.read_lv(self.lvalue(inner, env), env)
             if ck in ('NoOp', 'BitCast', 'AtomicToNonAtomic', 'NonAtomicToAtomic'):
@@ -374,6 +402,14 @@ class Fn:
             if op == '!':
                 at = tu.vtype(a)
                 return f'(if {self.ev(a, env)} == {lit(0, at.w)} then {lit(1, t.w)} else {lit(0, t.w)})'
+            if op == '&':
+                a0 = strip(a)
+                if a0.get('kind') == 'DeclRefExpr' and a0['referencedDecl']['name'] in self.local_records:
+                    nm = a0['referencedDecl']['name']
+                    v = 0x2000 + sorted(self.local_records).index(nm)
+                    self.tags[f'tag_local_{nm}'] = v
+                    return lit(v, PTR)
+                raise Unsupported('address-of outside the subset')
             if op in ('++', '--'):
                 lv = self.lvalue(a, env)
                 at = tu.vtype(a)
@@ -558,6 +594,8 @@ class Fn:
         if fname in ('atomic_signal_fence', 'atomic_thread_fence', '__atomic_signal_fence', '__atomic_thread_fence',
                      '__c11_atomic_signal_fence', '__c11_atomic_thread_fence'):
             return '()'                    # sequentially a fence does nothing
+        if fname in self.externs:
+            return self.extern_call(fname, n, args, env)
         if fname in ('memset', '__builtin_memset'):
             return self.memset(args, env)
         if fname in ('memcpy', '__builtin_memcpy'):
@@ -568,8 +606,6 @@ class Fn:
             return d
         if fname in self.tu.fns:
             return self.inline_call(fname, self.tu.fns[fname], args, env)
-        if fname in self.externs:
-            return self.extern_call(fname, n, args, env)
         if fname not in self.done_fns:
             raise Unsupported('call to untranslated function ' + fname)
         sig = self.done_fns[fname]
@@ -608,9 +644,12 @@ class Fn:
         of the unrolled code"""
         self.nsite[fname] = self.nsite.get(fname, 0) + 1
         k = self.nsite[fname]
+        widths = []
         for i, a in enumerate(args):
             t = self.tu.vtype(a)
+            widths.append((t.w, t.s))
             self.extra_outs.append((f'{fname}_arg_{k}_{i}', f'BitVec {t.w}', self.bind(f'{fname}_arg', self.ev(a, env))))
+        self.trace.append((fname, k, widths))
         dd = self.dead(env)
         path = env.get('$path', 'true')
         live = path if dd == 'false' else (f'(!{dd})' if path == 'true' else f'({path} && !{dd})')
@@ -687,7 +726,14 @@ class Fn:
             if not ok or vs.get('kind') != 'IntegerLiteral' or int(vs['value']) != 0:
                 raise Unsupported('memset of a structure parameter that is not memset(p, 0, sizeof(*p))')
             if self.partial[nm]:
-                raise Unsupported('memset of a structure with members outside the translated state: ' + ', '.join(self.partial[nm]))
+                if not all(m_ in self.allfields.get(nm, []) for m_ in self.partial[nm]):
+                    raise Unsupported('memset of a structure with members outside the translated state: ' + ', '.join(self.partial[nm]))
+                # array members: their zeroing is recorded as an event (`zeroed_<param>_<k>`) for the tie to use
+                self.nsite['zeroed_' + nm] = self.nsite.get('zeroed_' + nm, 0) + 1
+                dd = self.dead(env); path = env.get('$path', 'true')
+                live = path if dd == 'false' else (f'(!{dd})' if path == 'true' else f'({path} && !{dd})')
+                self.extra_outs.append((f'zeroed_{nm}_called_{self.nsite["zeroed_" + nm]}', 'Bool', live if live == 'true' else self.bind('zeroed', live)))
+                self.trace.append((f'zeroed_{nm}', self.nsite['zeroed_' + nm], []))
             for key in [k for k in env if k.startswith(nm + '->')]:
                 self.assign(env, key, lit(0, self.ftype[key].w))
             return env.get(nm, '()')
@@ -831,6 +877,11 @@ class Fn:
                     raise Unsupported('static/extern local ' + d['name'] + ' (state that persists between calls)')
                 if d['name'] in env and self.in_loop == 0:
                     raise Unsupported('declaration of ' + d['name'] + ' shadows another variable')
+                dq = d['type'].get('desugaredQualType', d['type'].get('qualType', ''))
+                if self.tu.record_of(dq + ' *') is not None:
+                    # an aggregate local: only its address may be used (handed to external functions)
+                    self.local_records[d['name']] = dq
+                    continue
                 self.tu.vtype(d)
                 init = [c for c in d.get('inner', []) if not c['kind'].endswith('Comment')]
                 if init:
@@ -896,6 +947,7 @@ class Fn:
             if rec is not None:
                 fields, missing = rec
                 self.partial[p['name']] = missing
+                self.allfields[p['name']] = self.tu.field_order.get(id(rec), [f for f, _ in fields])
                 for f, ft in fields:
                     params.append((f'{p["name"]}_{f}', ft.w))
                     env[f'{p["name"]}->{f}'] = f'{p["name"]}_{f}'
@@ -925,7 +977,10 @@ class Fn:
             fields.append(('mem', 'Mem', env['$mem']))
         fields.append(('ub', 'Bool', env['$ub']))
         fields.append(('exh', 'Bool', env['$exh']))
-        out = [f'/-- result of the generated `{name}` -/', f'structure {name}.Out where']
+        out = []
+        for tn, tv in sorted(self.tags.items(), key=lambda kv: kv[1]):
+            out.append(f'/-- identity of an array object / aggregate local used as a pointer in `{name}` -/\ndef {name}.{tn} : BitVec 64 := {lit(tv, PTR)}')
+        out += [f'/-- result of the generated `{name}` -/', f'structure {name}.Out where']
         out += [f'  {f} : {t}' for f, t, _ in fields]
         out.append('')
         sigtxt = ' '.join(f'({n_} : BitVec {w})' for n_, w in params) + (' (mem : Mem)' if self.uses_mem else '')
@@ -933,6 +988,15 @@ class Fn:
         for n_, e in self.lets:
             out.append(f'  let {n_} := {e}')
         out.append('  { ' + ', '.join(f'{f} := {v}' for f, _, v in fields) + ' }')
+        if self.trace:
+            out.append('')
+            out.append(f'/-- the external calls `{name}` executes, in order, with their arguments (zero- or sign-extended to 64 bits) -/')
+            out.append(f'def {name}.trace (o : {name}.Out) : List ExtCall :=')
+            parts = []
+            for fn_, k_, widths in self.trace:
+                args = ', '.join((f'(BitVec.signExtend 64 o.{fn_}_arg_{k_}_{i})' if sg and w < 64 else f'(BitVec.setWidth 64 o.{fn_}_arg_{k_}_{i})') for i, (w, sg) in enumerate(widths))
+                parts.append(f'  (if o.{fn_}_called_{k_} then [⟨"{fn_}", [{args}]⟩] else [])')
+            out.append(' ++\n'.join(parts))
         return '\n'.join(out), sig
 
 
@@ -994,8 +1058,10 @@ def load(path, extra):
                         fields.append((f['name'], tu.vtype(f)))
                     except Unsupported:
                         missing.append(f['name'])
-                tu.records[c.get('name', '') or ('<anon@%s>' % c['id'])] = (fields, missing)
-                pending[c['id']] = (fields, missing)
+                rec_ = (fields, missing)
+                tu.field_order[id(rec_)] = [f['name'] for f in c['inner'] if f.get('kind') == 'FieldDecl' and 'name' in f]
+                tu.records[c.get('name', '') or ('<anon@%s>' % c['id'])] = rec_
+                pending[c['id']] = rec_
             if c['kind'] == 'TypedefDecl':
                 # typedef struct {...} name;  -> the anonymous record gets the typedef's name
                 for ch in c.get('inner', []):
